@@ -140,6 +140,45 @@ except Exception:
         return [ast.Assign(targets=[ast.Name(c, ast.Store())], value=node.test), outer]
 
 
+class Friendly(ast.NodeTransformer):
+    """rewrites calls the proxies cannot intercept:  <bytes/str literal>.join(x)  ->  __pvx.join(<literal>, x)"""
+
+    def __init__(self):
+        self.count = 0
+
+    def visit_Call(self, node):
+        self.generic_visit(node)
+        f = node.func
+        if isinstance(f, ast.Attribute) and f.attr == "join" and isinstance(f.value, ast.Constant) and isinstance(f.value.value, (bytes, str)) \
+                and len(node.args) == 1 and not node.keywords:
+            self.count += 1
+            return ast.Call(func=ast.Attribute(value=ast.Name("__pvx", ast.Load()), attr="join", ctx=ast.Load()), args=[f.value, node.args[0]], keywords=[])
+        return node
+
+
+def friendly(fn):
+    """(new function, number of rewritten calls); (fn, 0) when nothing applies or the source is unavailable"""
+    try:
+        tree = ast.parse(source_of(fn))
+    except (OSError, TypeError, SyntaxError):
+        return fn, 0
+    if not isinstance(tree.body[0], ast.FunctionDef):
+        return fn, 0
+    tree.body[0].decorator_list = []
+    t = Friendly()
+    tree = t.visit(tree)
+    if not t.count:
+        return fn, 0
+    ast.fix_missing_locations(tree)
+    g = fn.__globals__
+    g['__pvx'] = sym
+    ns = {}
+    exec(compile(tree, f"<pvx friendly {fn.__qualname__}>", "exec"), g, ns)
+    new = ns[fn.__name__]
+    new.__qualname__ = fn.__qualname__
+    return new, t.count
+
+
 def source_of(fn):
     return textwrap.dedent(inspect.getsource(fn))
 
